@@ -594,7 +594,7 @@ def threads_stage(run, count, exhaustive_pairs=None):
     drivers.thread_executions(sess, run.sub_rng("threads"), count, log, exhaustive_pairs=exhaustive_pairs)
     if not exhaustive_pairs:
         # pre-emption at every library function call (not only model accesses): every switch point of one call
-        drivers.thread_executions_fine(sess, run.sub_rng("threads-fine"), q(run, 2, 15), log, stride=q(run, 2, 1))
+        drivers.thread_executions_fine(sess, run.sub_rng("threads-fine"), q(run, 3, 15), log, stride=1)
     validate_thread_log(run, log, "thread-events")
     validate_events(run, sched.regroup(sess.events), {"C14"}, "thread-results")
     run.samples.append({"thread_events_of_one_execution": [(e["th"], e["ev"], e["attr"], e["value"]) for e in log[:60]]})
